@@ -22,9 +22,18 @@ from harness.vloop import Deadlock, checkpoints, run_virtual
 T = TypeVar("T")
 
 
+def _truth(tag: Any) -> bool:
+    # every third resource value is an object whose truth value is False (an empty registry, a closed
+    # handle ...): a resource is what was published, whatever bool() says about it
+    return not (isinstance(tag, tuple) and len(tag) > 1 and isinstance(tag[1], int) and tag[1] % 3 == 0)
+
+
 class A:
     def __init__(self, tag: Any = None) -> None:
         self.tag = tag
+
+    def __bool__(self) -> bool:
+        return _truth(self.tag)
 
     def __repr__(self) -> str:
         return f"<{type(self).__name__} {self.tag}>"
@@ -37,6 +46,9 @@ class B(A):
 class C:
     def __init__(self, tag: Any = None) -> None:
         self.tag = tag
+
+    def __bool__(self) -> bool:
+        return _truth(self.tag)
 
     def __repr__(self) -> str:
         return f"<C {self.tag}>"
@@ -573,8 +585,33 @@ def histories(draw: Any, prop: str, tier: str) -> dict:
     return {"backend": backend, "sched_seed": draw(SEED), "comp": comp, "ops": ops}
 
 
+@st.composite
+def _reentrant_cases(draw: Any) -> dict:
+    from harness.engines import reentrant
+
+    d = D(draw)
+    ft = d.pick([[0], [1], [2], [0, 1], [0, 2], [1, 2], [2, 0], [0, 1, 2], [2, 1, 0]])
+    inner = [u for u in ft if d.pct(50)]
+    fasync = d.bool()
+    return {"kind": "reentrant", "backend": draw(BACKEND), "sched_seed": draw(SEED), "ftypes": ft, "inner": inner, "t": d.pick(ft),
+            "api": d.pick(reentrant.APIS), "fasync": fasync, "nested": d.bool(), "cps": d.int(0, 2) if fasync else 0}
+
+
 def strategy(prop: str, tier: str) -> st.SearchStrategy:
+    if prop in ("C03", "C04", "C18"):
+        # a few per cent of the cases come from the small family of re-entrant factories (harness/engines/reentrant.py)
+        return st.one_of(*([histories(prop, tier)] * 19 + [_reentrant_cases()]))
     return histories(prop, tier)
+
+
+def exhaustive_cases(prop: str, tier: str, w: int, n: int):
+    if prop not in ("C03", "C04", "C18"):
+        return
+    from harness.engines import reentrant
+
+    for i, case in enumerate(reentrant.all_cases()):
+        if i % n == w:
+            yield case
 
 
 # =====================================================================================
@@ -1064,7 +1101,8 @@ class Interp:
             marks = self.td_marks.setdefault(ctx, [])
             kwargs["teardown_callback"] = _shaped(lambda: marks.append(serial), op["vid"])
         elif td == "bad":
-            kwargs["teardown_callback"] = 5
+            # not callable - and, for some, not even true
+            kwargs["teardown_callback"] = [5, 0, "", [], False, "close"][op["vid"] % 6]
         if "desc" in op:
             kwargs["description"] = op["desc"]
         reasons = self.m.add_reasons(ctx, op)
@@ -1583,6 +1621,10 @@ def _fmt_exp(e: dict) -> str:
 
 
 def run_case(case: dict, prop: str) -> Outcome:
+    if case.get("kind") == "reentrant":
+        from harness.engines import reentrant
+
+        return reentrant.run_case(case, prop, PROP_CLASSES[prop])
     it = Interp(case, prop)
     try:
         run_virtual(case["backend"], it.main, sched_seed=case.get("sched_seed", 0))
@@ -1609,6 +1651,13 @@ def shrink_candidates(case: dict):
     """Smaller / simpler variants of a case (for harness.minimize)."""
     import copy
 
+    if case.get("kind") == "reentrant":
+        for key, val in (("nested", False), ("backend", "asyncio"), ("sched_seed", 0), ("cps", 0)):
+            if case.get(key) != val:
+                c = copy.deepcopy(case)
+                c[key] = val
+                yield c
+        return
     ops = case["ops"]
     for i in range(len(ops)):
         c = copy.deepcopy(case)
